@@ -1,5 +1,5 @@
 (* C09 — the lemmas Property.v refers to (Lemmas1: rounding, decomposition, 2-d dictionary, NaN, dispatch; Lemmas2/3: line intersections). *)
-From GV Require Export C08.Model C08.QBase C09.Model C09.Lemmas1 C09.Lemmas2 C09.Lemmas3 C09.Lemmas4 C09.Lemmas5.
+From GV Require Export C08.Model C08.QBase C09.Model C09.Lemmas1 C09.Lemmas2 C09.Lemmas3 C09.Lemmas4 C09.Lemmas5 C09.Lemmas6 C09.PyNum C09.Lemmas7.
 
 Definition from_range_exact := Lemmas1.from_range_exact.
 Definition rect_decomposition := Lemmas1.rect_decomposition.
@@ -17,3 +17,10 @@ Definition mixed_path_sem_y := Lemmas3.mixed_path_sem_y.
 Definition label_path_exact := Lemmas4.label_path_exact.
 Definition segments_scale := Lemmas5.segments_scale.
 Definition mixed_path_scale := Lemmas5.mixed_path_scale.
+Definition jitter_ignored := Lemmas6.jitter_ignored.
+Definition displayed_nearest := Lemmas6.displayed_nearest.
+Definition range_jitter_exact := Lemmas6.range_jitter_exact.
+Definition range_dispatch_jitter := Lemmas6.range_dispatch_jitter.
+Definition from_range_translated := Lemmas7.from_range_translated.
+Definition contains_translated := Lemmas7.contains_translated.
+Definition dispatch_translated := Lemmas7.dispatch_translated.
